@@ -36,7 +36,7 @@ def model(tier):
     defs = {
         "Grid": list(G[:n]), "Cand": cs, "Mandatory": set(range(1, n + 1)), "Lats": {0, L},
         "Folds": tlagen.Raw("{<<0, 2000000000>>}"), "Modes": tlagen.Raw("{[markov |-> FALSE, warmup |-> -1]}"),
-        "Delays": {0, 1}, "EpLens": {0}, "Spaces": {"box"}, "Bads": tlagen.Raw('{[at |-> 0, cls |-> "ok"]}'),
+        "Delays": {0, 1}, "EpLens": {0}, "ResetLens": {0}, "Spaces": {"box"}, "Bads": tlagen.Raw('{[at |-> 0, cls |-> "ok"]}'),
         "Cuts": set(G[: n - 1]),
     }
     plain = {"DayLen": DAY, "MaxOpt": 1 if tier == "quick" else 2, "MaxCalls": n, "ResetAnywhere": False, "ClockRule": "after_newdate",
@@ -60,7 +60,7 @@ def model_subsecond(tier):
     defs = {
         "Grid": list(g), "Cand": cs, "Mandatory": {1, 2, 3}, "Lats": {Lt},
         "Folds": tlagen.Raw("{<<0, 2000000000>>}"), "Modes": tlagen.Raw("{[markov |-> FALSE, warmup |-> -1]}"),
-        "Delays": {0, 1}, "EpLens": {0}, "Spaces": {"box"}, "Bads": tlagen.Raw('{[at |-> 0, cls |-> "ok"]}'),
+        "Delays": {0, 1}, "EpLens": {0}, "ResetLens": {0}, "Spaces": {"box"}, "Bads": tlagen.Raw('{[at |-> 0, cls |-> "ok"]}'),
         "Cuts": set(g[:2]),
     }
     plain = {"DayLen": dl, "MaxOpt": 1 if tier == "quick" else 2, "MaxCalls": 3, "ResetAnywhere": False,
